@@ -1,0 +1,85 @@
+//go:build verif
+
+package lrsclient
+
+// Contracts checked by /verif (contract-based deductive verification).
+// This file is comment-only; it is compiled only with -tags=verif.
+
+// ---- C50: load counters neither lose nor double count ---------------------------------------------
+//
+// Every counter cell is changed by single atomic actions only: an increment is
+// one atomic add, a report takes the value and resets the cell in ONE atomic
+// swap, so an increment that races with a report lands either in this report or
+// in the next one, never in none and never in both.
+
+//@ func (*rpcCountData).incrSucceeded
+//@   prop C50
+//@   ensures *rcd.succeeded == old(*rcd.succeeded)+1 && ncalls("AddUint64") == 1
+//@ func (*rpcCountData).incrErrored
+//@   prop C50
+//@   ensures *rcd.errored == old(*rcd.errored)+1 && ncalls("AddUint64") == 1
+//@ func (*rpcCountData).incrIssued
+//@   prop C50
+//@   ensures *rcd.issued == old(*rcd.issued)+1 && ncalls("AddUint64") == 1
+//@ func (*rpcCountData).incrInProgress
+//@   prop C50
+//@   ensures *rcd.inProgress == old(*rcd.inProgress)+1 && ncalls("AddUint64") == 1
+//@ func (*rpcCountData).decrInProgress
+//@   prop C50
+//@   ensures *rcd.inProgress == old(*rcd.inProgress)-1 && ncalls("AddUint64") == 1
+
+//@ func (*rpcCountData).loadAndClearSucceeded
+//@   prop C50
+//@   ensures result == old(*rcd.succeeded) && *rcd.succeeded == 0 && ncalls("SwapUint64") == 1
+//@ func (*rpcCountData).loadAndClearErrored
+//@   prop C50
+//@   ensures result == old(*rcd.errored) && *rcd.errored == 0 && ncalls("SwapUint64") == 1
+//@ func (*rpcCountData).loadAndClearIssued
+//@   prop C50
+//@   ensures result == old(*rcd.issued) && *rcd.issued == 0 && ncalls("SwapUint64") == 1
+// in-progress calls are read, never reset, by a report
+//@ func (*rpcCountData).loadInProgress
+//@   prop C50
+//@   ensures result == *rcd.inProgress && *rcd.inProgress == old(*rcd.inProgress)
+
+// server load of one name: sum and count move together under the mutex
+//@ func (*rpcLoadData).add
+//@   prop C50
+//@   opt atomic mu
+//@   ensures implies(old(rld.sum)+v == old(rld.sum)+v, rld.sum == old(rld.sum)+v) && rld.count == old(rld.count)+1
+//@ func (*rpcLoadData).loadAndClear
+//@   prop C50
+//@   opt atomic mu
+//@   ensures implies(old(rld.sum) == old(rld.sum), s == old(rld.sum)) && c == old(rld.count) && rld.sum == 0 && rld.count == 0
+
+// A started call counts as in progress and as issued; a finished call stops
+// being in progress and counts as succeeded exactly when it ended without error,
+// as errored otherwise.
+//@ func (*PerClusterReporter).CallStarted
+//@   prop C50
+//@   assert at call incrInProgress#1 ncalls("incrIssued") == 0
+//@   assert at call incrIssued#1 ncalls("incrInProgress") == 1
+//@   ensures ncalls("incrInProgress") == 1 && ncalls("incrIssued") == 1
+
+//@ func (*PerClusterReporter).CallFinished
+//@   prop C50
+//@   assert at call incrSucceeded#1 err == nil && ncalls("decrInProgress") == 1 && ncalls("incrErrored") == 0
+//@   assert at call incrErrored#1 err != nil && ncalls("decrInProgress") == 1 && ncalls("incrSucceeded") == 0
+//@   ensures ncalls("decrInProgress") == ncalls("incrSucceeded") + ncalls("incrErrored")
+
+// One locality in a report (stats$2 is the callback of localityRPCCount.Range):
+// each counter is taken exactly once; when nothing at all is reported for the
+// locality its server loads are left untouched (they stay for a later report),
+// and otherwise the values reported are exactly the values taken.
+//@ func (*PerClusterReporter).stats$2
+//@   prop C50
+//@   assert at return 1 succeeded == 0 && inProgress == 0 && errored == 0 && issued == 0 && ncalls("Range") == 0
+//@   assert at call Range#1 !(succeeded == 0 && inProgress == 0 && errored == 0 && issued == 0)
+//@   assert at call Range#1 ld.requestStats.succeeded == succeeded && ld.requestStats.errored == errored && ld.requestStats.inProgress == inProgress && ld.requestStats.issued == issued
+//@   ensures ncalls("loadAndClearSucceeded") == 1 && ncalls("loadAndClearErrored") == 1 && ncalls("loadAndClearIssued") == 1 && ncalls("loadInProgress") == 1
+
+// One server-load name of a reported locality (stats$2$1): taken exactly once,
+// reported with both parts unless nothing was recorded.
+//@ func (*PerClusterReporter).stats$2$1
+//@   prop C50
+//@   ensures ncalls("loadAndClear") == 1
